@@ -35,6 +35,41 @@ def probe_installer():
     return None
 
 
+def probe_provisioner_variables():
+    from esrally.mechanic import provisioner
+
+    class Plugin:
+        def __init__(self, name, variables, moved=False):
+            self.name, self.variables, self.moved_to_module, self.config_paths = name, variables, moved, []
+
+    class PI:
+        def __init__(self, plugin):
+            self.plugin = plugin
+            self.variables = plugin.variables
+            self.plugin_name = plugin.name
+
+    car_vars = {"cluster_name": "evil", "node_name": "evil", "data_paths": "/evil", "log_path": "/evil", "heap_dump_path": "/evil", "node_ip": "6.6.6.6", "network_host": "6.6.6.6",
+                "http_port": "1", "transport_port": "2", "install_root_path": "/evil", "heap_size": "4g", "shared": "car"}
+    inst = provisioner.ElasticsearchInstaller.__new__(provisioner.ElasticsearchInstaller)
+    inst.car = Car(dict(car_vars))
+    inst.cluster_name, inst.node_name, inst.node_ip, inst.http_port = "rc", "n0", "10.0.0.9", 39200
+    inst.data_paths, inst.node_log_dir, inst.heap_dump_dir = ["/d"], "/l", "/h"
+    inst.all_node_ips, inst.all_node_names, inst.es_home_path = ["10.0.0.9"], ["n0"], "/es"
+    for plugins in ([], [PI(Plugin("p1", {"shared": "plugin", "p1_only": 1}))], [PI(Plugin("p1", {"x": 1}, moved=True)), PI(Plugin("p2", {"x": 2}))]):
+        p = provisioner.BareProvisioner(inst, plugins)
+        v = p._provisioner_variables()
+        want = {"cluster_name": "rc", "node_name": "n0", "data_paths": ["/d"], "log_path": "/l", "heap_dump_path": "/h", "node_ip": "10.0.0.9", "network_host": "10.0.0.9",
+                "http_port": "39200", "transport_port": "39300", "install_root_path": "/es", "heap_size": "4g"}
+        for k, w in want.items():
+            if v.get(k) != w:
+                return f"BareProvisioner._provisioner_variables()[{k!r}] == {v.get(k)!r} with plugins {[x.plugin_name for x in plugins]}: Rally's / the installer's value is {w!r} (car defines {car_vars.get(k)!r})"
+        if plugins and "shared" in plugins[0].variables and v.get("shared") != "plugin":
+            return f"a plugin variable does not override the car's: shared == {v.get('shared')!r}"
+        if "cluster_settings" not in v:
+            return "cluster_settings missing"
+    return None
+
+
 def probe_docker():
     from esrally.mechanic import provisioner
 
@@ -52,16 +87,23 @@ def probe_docker():
 def probe_cleanup():
     from esrally.mechanic import provisioner
 
+    # data paths elsewhere, below the installation, and siblings whose NAME merely starts with the installation directory's name
+    layouts = [("data1", "data2"), ("install/data",), ("install-data", "install.data/d0"), ("data1", "install/data", "installX")]
     for preserve in (True, False):
-        with tempfile.TemporaryDirectory() as d:
-            inst, d1, d2, other = (os.path.join(d, x) for x in ("install", "data1", "data2", "other"))
-            for x in (inst, d1, d2, other):
-                os.makedirs(x)
-            provisioner.cleanup(preserve, inst, [d1, d2])
-            left = sorted(os.listdir(d))
-            want = ["data1", "data2", "install", "other"] if preserve else ["other"]
-            if left != want:
-                return f"cleanup(preserve={preserve}) left {left}, expected {want}"
+        for layout in layouts:
+            with tempfile.TemporaryDirectory() as d:
+                inst, other = os.path.join(d, "install"), os.path.join(d, "other")
+                data = [os.path.join(d, x) for x in layout]
+                for x in [inst, other] + data:
+                    os.makedirs(x, exist_ok=True)
+                provisioner.cleanup(preserve, inst, data)
+                gone = [x for x in [inst] + data if os.path.exists(x)]
+                if preserve and len(gone) != len(data) + 1:
+                    return f"cleanup(preserve=True, install, data paths {layout}) removed something: still there {gone}"
+                if not preserve and gone:
+                    return f"cleanup(preserve=False, install, data paths {layout}) left {[os.path.relpath(x, d) for x in gone]} behind"
+                if not os.path.isdir(other):
+                    return f"cleanup removed an unrelated directory (data paths {layout})"
     return None
 
 
@@ -85,7 +127,7 @@ def probe_carloader():
 
 
 def main(rec):
-    for f in (probe_installer, probe_docker, probe_cleanup, probe_carloader):
+    for f in (probe_installer, probe_provisioner_variables, probe_docker, probe_cleanup, probe_carloader):
         try:
             v = f()
         except Exception as ex:  # noqa
